@@ -4,8 +4,10 @@ import (
 	"fmt"
 	"os"
 	"path/filepath"
+	"sort"
 	"strconv"
 	"strings"
+	"time"
 
 	"verif/agent"
 	"verif/sim"
@@ -42,15 +44,6 @@ func NewMEnv(tier string) (interface{}, func(), error) {
 		return nil, nil, err
 	}
 	me.W2 = w2
-	self, _ := os.Executable()
-	for i := 0; i < 3; i++ {
-		a, err := agent.Start(self)
-		if err != nil {
-			closer0()
-			return nil, nil, err
-		}
-		me.Agents = append(me.Agents, a)
-	}
 	return me, func() {
 		for _, a := range me.Agents {
 			a.Close()
@@ -74,62 +67,76 @@ func (l klock) overlaps(a, b int64) bool {
 	return l.start <= b && (l.end == -1 || l.end >= a)
 }
 
-// procLocks reads the kernel's POSIX lock table for the file.
+// procLocks reads the kernel's POSIX lock table for the file: union of three passes.
 func procLocks(path string) ([]klock, error) {
 	st, err := os.Stat(path)
 	if err != nil {
 		return nil, err
 	}
 	ino := strconv.FormatUint(inodeOf(st), 10)
-	b, err := readProcLocks()
-	if err != nil {
-		return nil, err
-	}
+	seen := map[klock]bool{}
 	var out []klock
-	for _, l := range strings.Split(string(b), "\n") {
-		f := strings.Fields(l)
-		if len(f) > 0 && f[1] == "->" {
-			f = append(f[:1], f[2:]...)
-		}
-		if len(f) < 8 || f[1] != "POSIX" || !strings.HasSuffix(f[5], ":"+ino) {
-			continue
-		}
-		pid, _ := strconv.Atoi(f[4])
-		s, _ := strconv.ParseInt(f[6], 10, 64)
-		e := int64(-1)
-		if f[7] != "EOF" {
-			e, _ = strconv.ParseInt(f[7], 10, 64)
-		}
-		out = append(out, klock{pid: pid, write: f[3] == "WRITE", start: s, end: e})
-	}
-	return out, nil
-}
-
-// readProcLocks reads /proc/locks with ONE read system call: the kernel walks
-// the lock list under its lock per read(), so a single large read is a
-// consistent snapshot, whereas a chunked read (os.ReadFile) can skip entries
-// when other processes lock and unlock meanwhile.
-func readProcLocks() ([]byte, error) {
-	size := 1 << 20
-	for {
-		f, err := os.Open("/proc/locks")
+	for pass := 0; pass < 3; pass++ {
+		b, err := readProcLocks()
 		if err != nil {
 			return nil, err
 		}
-		buf := make([]byte, size)
-		n, err := f.Read(buf)
-		f.Close()
-		if err != nil && n == 0 {
-			if err.Error() == "EOF" {
-				return nil, nil
+		for _, l := range strings.Split(string(b), "\n") {
+			f := strings.Fields(l)
+			if len(f) > 1 && f[1] == "->" {
+				f = append(f[:1], f[2:]...)
 			}
-			return nil, err
+			if len(f) < 8 || f[1] != "POSIX" || !strings.HasSuffix(f[5], ":"+ino) {
+				continue
+			}
+			pid, _ := strconv.Atoi(f[4])
+			s, _ := strconv.ParseInt(f[6], 10, 64)
+			e := int64(-1)
+			if f[7] != "EOF" {
+				e, _ = strconv.ParseInt(f[7], 10, 64)
+			}
+			k := klock{pid: pid, write: f[3] == "WRITE", start: s, end: e}
+			if !seen[k] {
+				seen[k] = true
+				out = append(out, k)
+			}
 		}
-		if n < size {
-			return buf[:n], nil
-		}
-		size *= 4
 	}
+	sort.Slice(out, func(i, j int) bool {
+		a, b := out[i], out[j]
+		if a.pid != b.pid {
+			return a.pid < b.pid
+		}
+		if a.start != b.start {
+			return a.start < b.start
+		}
+		return !a.write && b.write
+	})
+	return out, nil
+}
+
+// readProcLocks reads /proc/locks completely. The kernel hands out at most one
+// seq_file buffer (a few KiB) per read(), and the list can change between two
+// read() calls while OTHER processes lock and unlock, so one pass may skip or
+// repeat lines. The locks on the file of the current run do not change while we
+// read (lock-step: all our actors are parked), hence every line we see for our
+// inode is true; callers take the union of several passes to avoid missing one.
+func readProcLocks() ([]byte, error) {
+	f, err := os.Open("/proc/locks")
+	if err != nil {
+		return nil, err
+	}
+	defer f.Close()
+	var out []byte
+	buf := make([]byte, 1<<16)
+	for {
+		n, err := f.Read(buf)
+		out = append(out, buf[:n]...)
+		if n == 0 || err != nil {
+			break
+		}
+	}
+	return out, nil
 }
 
 type lockView struct {
@@ -288,6 +295,20 @@ func (m *mWorld) snapshot(w *mWriter) {
 }
 
 func (m *mWorld) cur() int { return len(m.versions) - 1 }
+
+// stillTrue re-reads the lock table a few more times before an "expected lock is
+// not there" verdict is believed: a line can be skipped by a pass while other
+// processes churn the kernel's list, but never by all passes.
+func (m *mWorld) stillTrue(missing func(lockView) bool) bool {
+	for i := 0; i < 6; i++ {
+		time.Sleep(time.Millisecond)
+		if !missing(m.view()) {
+			m.c.Inc("lock_table_reread_rescued", 1)
+			return false
+		}
+	}
+	return true
+}
 
 func (m *mWorld) wexec(w *mWriter, sql string, params ...sq.Val) *sq.Resp {
 	r, err := w.w.Exec(w.conn, sql, params...)
@@ -557,7 +578,7 @@ func (m *mWorld) atLockEvent(h *mHandle, kind string, errText string, v lockView
 		}
 	} else {
 		m.c.Probe("lock-fail")
-		if !blocked {
+		if !blocked && h.busy && m.stillTrue(func(w lockView) bool { b, _ := w.blocksReaders(h.ag.Pid); return !b }) {
 			// own-process effects (a sibling handle already holds the pending byte?) cannot make F_SETLK fail
 			m.c.Fail("spurious-lock-failure", "lock-fail-without-writer", fmt.Sprintf("%s failed to lock (%s) but no other process holds PENDING or EXCLUSIVE", h.name, errText), detail)
 		}
@@ -736,7 +757,7 @@ func (m *mWorld) invariants(step string) {
 	for _, h := range m.handles {
 		if h.busy && h.locked {
 			// I1: from the lock until unlock the process holds READ on the shared range
-			if !v.sharedHeldBy(h.ag.Pid) {
+			if !v.sharedHeldBy(h.ag.Pid) && m.stillTrue(func(w lockView) bool { return !w.sharedHeldBy(h.ag.Pid) }) {
 				sib := 0
 				for _, o := range byAgent[h.ag] {
 					if o != h {
@@ -780,6 +801,20 @@ func runMWorld(c *sim.Ctx, prop string) {
 	me := c.Env.(*MEnv)
 	dir, cleanup := me.RunDir()
 	defer cleanup()
+	// fresh agent processes for every run: nothing a run does to a process (a lock it
+	// leaked, a descriptor it kept) can leak into the next run, so every run replays alone
+	self, _ := os.Executable()
+	for _, a := range me.Agents {
+		a.Close()
+	}
+	me.Agents = nil
+	for i := 0; i < 3; i++ {
+		a, err := agent.Start(self)
+		if err != nil {
+			c.Troublef("agent: %v", err)
+		}
+		me.Agents = append(me.Agents, a)
+	}
 	m := &mWorld{c: c, s: s, env: me, dir: dir, prop: prop}
 	m.setup()
 	defer m.teardown()
